@@ -17,6 +17,7 @@ pub mod c16;
 pub mod c17;
 pub mod c18;
 pub mod c19;
+pub mod c20;
 pub mod dump;
 
 use crate::engine::report::Report;
@@ -40,6 +41,7 @@ pub fn run(id: &str, tier: &str) -> Option<i32> {
         "C17" => { let r = Report::new(id, tier, "model_checking"); c17::check(&r); r }
         "C18" => { let r = Report::new(id, tier, "model_checking"); c18::check(&r); r }
         "C19" => { let r = Report::new(id, tier, "model_checking"); c19::check(&r); r }
+        "C20" => { let r = Report::new(id, tier, "model_checking"); c20::check(&r); r }
         _ => return None,
     };
     Some(r.finish())
@@ -64,6 +66,7 @@ pub fn replay(id: &str, path: &str) -> Option<i32> {
         "C17" => Some(c17::replay(path)),
         "C18" => Some(c18::replay(path)),
         "C19" => Some(c19::replay(path)),
+        "C20" => Some(c20::replay(path)),
         _ => None,
     }
 }
